@@ -29,15 +29,13 @@ class RMA(Indicator):
             )
 
         if self.reading_period(self.period, self.input_value):
-            period_to = index - self.period if index >= (self.period + 1) else -1
-
             # numpy ewm adjusted calc
             values = sum(
-                ((1 - alpha) ** py) * self.reading(self.input_value, i)
-                for py, i in enumerate(range(index, period_to, -1))
+                ((1 - alpha) ** py) * self.reading(self.input_value, index - py)
+                for py in range(self.period)
             )
 
-            divide_by = sum((1 - alpha) ** i for py, i in enumerate(range(index, period_to, -1)))
+            divide_by = sum((1 - alpha) ** py for py in range(self.period))
 
             return values / divide_by
 
